@@ -306,6 +306,39 @@ pub fn run_c10_timed(out: &mut Out, tier: &str, rng: &mut Rng) {
     }
 }
 
+/// Transport-protocol traffic, deterministically: a configured unit announces a multi-packet message and falls silent past its
+/// timeout; data packets from a stranger, from the daemon's own address and addressed elsewhere do not speak for it.
+pub fn run_transport_timed(out: &mut Out) {
+    for (v, p, da) in [("laixer", "vcu", 0x12u8), ("laixer", "hcu", 0x4A)] {
+        let d = DriverCfg { da, sa: None, timeout: Some(300), vendor: v.into(), product: p.into() };
+        let other = DriverCfg { da: 0x6A, sa: None, timeout: Some(300), vendor: "kübler".into(), product: "encoder".into() };
+        let cfg = NetCfg { address: 0x27, name: default_name(), drivers: vec![d.clone(), other] };
+        let mut rig = match Rig::new(&cfg) {
+            Ok(r) => r,
+            Err(()) => continue,
+        };
+        let mut h = Hist { rig: &mut rig, ins: vec![], outs: vec![] };
+        h.setup();
+        h.cycle();
+        h.frame(&raw_of(make_id(6, 65288, 0, da), &[0x14, 0xFF, 1, 0xFF, 1, 0, 0, 0]));
+        h.frame(&raw_of(make_id(7, 60416, 0xFF, da), &[0x20, 20, 0, 3, 0xFF, 0xDA, 0xFE, 0x00]));
+        h.cycle();
+        h.wait(450);
+        h.cycle();
+        h.frame(&raw_of(make_id(7, 60160, 0xFF, 0x55), &[1, 1, 2, 3, 4, 5, 6, 7]));
+        h.cycle();
+        h.frame(&raw_of(make_id(7, 60160, 0x4A, 0x27), &[2, 1, 2, 3, 4, 5, 6, 7]));
+        h.cycle();
+        h.frame(&raw_of(make_id(7, 60160, 0xFF, 0x6B), &[3, 1, 2, 3, 4, 5, 6, 7]));
+        for _ in 0..10 {
+            h.cycle();
+        }
+        let (ins, outs) = (h.ins.join(" "), h.outs.join(" "));
+        out.case(&format!("auth {} {}", cfg.tok(), ins), &outs, true);
+        out.count("timed history with transport-protocol traffic");
+    }
+}
+
 /// Reception after a LONG silence (thorough tier only: it really waits): a unit that has been quiet for more than a minute
 /// speaks again; the frame is received like any other and the network keeps ticking and taking commands.
 pub fn run_c06_long_silence(out: &mut Out, tier: &str) {
